@@ -133,6 +133,9 @@ def run(ctx):
             continue
         ctx.ob("C16.2", "other-header-parse|%s" % h.id, "no other place of the connection code parses client header lines", not h.file.endswith("client.rs") and not h.file.endswith("request.rs"), h.loc(bb), nontrivial=False)
 
+    import rules_C13
+    rules_C13.line_reader_rules(ctx, facts, "C16.2")
+
     # ---- C16.3 Content-Length value
     nr0 = FM.nr0
     where = "%s:%d" % (nr0.file, nr0.line)
